@@ -55,14 +55,14 @@ PLANS = {
             "thorough": [("sched", 5000, 70), ("mixed", 2000, 80)]},
     "C12": {"quick": [("capacity", 300, 70), ("mixed", 100, 60), ("wide", 12, 0)],
             "thorough": [("capacity", 5000, 200), ("mixed", 2000, 80), ("wide", 300, 0)]},
-    "C17": {"quick": [("mixed", 250, 60), ("st", 120, 60), ("lt", 250, 70), ("wide", 20, 0)],
-            "thorough": [("mixed", 4000, 80), ("st", 2000, 80), ("lt", 2000, 80), ("wide", 400, 0)]},
+    "C17": {"quick": [("mixed", 250, 60), ("st", 120, 60), ("lt", 250, 70), ("wide", 20, 0), ("ltmark", 60, 0)],
+            "thorough": [("mixed", 4000, 80), ("st", 2000, 80), ("lt", 2000, 80), ("wide", 400, 0), ("ltmark", 1500, 0)]},
     "C10": {"quick": [("mixed", 300, 60), ("st", 100, 60)],
             "thorough": [("mixed", 4000, 80), ("st", 2000, 80)]},
     "C07": {"quick": [("st", 400, 60), ("wide", 20, 0)],
             "thorough": [("st", 6000, 80), ("wide", 400, 0)]},
-    "C08": {"quick": [("lt", 500, 70)],
-            "thorough": [("lt", 8000, 90)]},
+    "C08": {"quick": [("lt", 500, 70), ("ltmark", 40, 0)],
+            "thorough": [("lt", 8000, 90), ("ltmark", 1000, 0)]},
     "C13": {"quick": [("mixed", 250, 60), ("lt", 200, 60), ("st", 100, 60)],
             "thorough": [("mixed", 4000, 80), ("lt", 3000, 80), ("st", 2000, 80)]},
     "C15": {"quick": [("rtt", 150, 120), ("nomech", 100, 60), ("bigrtt", 25, 0)],
